@@ -44,6 +44,21 @@ Proof.
   intros H; injection H as _ _ <-. cbn [length]. rewrite skipn_length. lia.
 Qed.
 
+(* a proper prefix of a record with a valid type byte: end of file at or inside the record *)
+Lemma read_frame_prefix t data j :
+  len_of data < U32 -> existsb (N.eqb t) pipe_signals = true -> (j < length (enc_frame t data))%nat ->
+  read_frame (firstn j (enc_frame t data)) = FEof \/ read_frame (firstn j (enc_frame t data)) = FTorn.
+Proof.
+  intros Hl Ht Hj. unfold enc_frame, le32 in *. cbn [app] in *.
+  destruct j as [|j]; [left; reflexivity|right].
+  cbn [firstn read_frame]. rewrite Ht. cbn [negb].
+  do 4 (destruct j as [|j]; [reflexivity|]). cbn [firstn].
+  rewrite (of_le32_le32 _ Hl).
+  assert (Hlt : ltb_len (firstn j data) (len_of data) = true).
+  { unfold ltb_len, len_of. rewrite firstn_length. cbn [length] in Hj. lia. }
+  rewrite Hlt. reflexivity.
+Qed.
+
 Lemma stoi_dec n : stoi (dec_of_N n) = Some n.
 Proof.
   unfold stoi. destruct (dec_of_N_spec n) as (d & ds & He & Hf & Hv & _).
@@ -115,7 +130,8 @@ Section Machine.
     - destruct (mem_file files f) eqn:Em; [|discriminate]. apply mem_file_In in Em.
       destruct (ph st f) as [|s o r] eqn:Ep; [discriminate|]. destruct o; [|discriminate].
       intros H; injection H as <-. unfold handle_read.
-      destruct (read_frame s) as [| |t data rest] eqn:Er.
+      destruct (read_frame s) as [| | |t data rest] eqn:Er.
+      + intros _. unfold Defs.measure. cbn [ph]. apply sum_upd_lt; [exact Em|]. rewrite Ep. cbn [Defs.weight]. lia.
       + intros _. unfold Defs.measure. cbn [ph]. apply sum_upd_lt; [exact Em|]. rewrite Ep. cbn [Defs.weight]. lia.
       + cbn [halted]. discriminate.
       + pose proof (read_frame_shrinks _ _ _ _ Er) as Hs.
@@ -229,28 +245,62 @@ Section Machine.
   Qed.
 End Machine.
 
-(* ---------- workers that die between records ---------- *)
+(* ---------- workers that die at any point: between records or inside one ---------- *)
 Section Containment.
   Variable files : list N.
   Variable jobs : nat.
   Variable fr : N -> list (N * str).      (* the records worker f sends in a fault-free run *)
   Variable res : N -> N.                  (* its CHILD_END result *)
-  Variable cut : N -> option nat.         (* Some k: dies after its first k records, before the next byte *)
+  Variable cut : N -> option (nat * nat). (* Some (k, j): dies after its first k records and j bytes of the next one *)
   Variable status : N -> cstat.
 
   Hypothesis good : forall f, forallb good_frame (fr f) = true.
   Hypothesis res_small : forall f, res f <= SIZE_MAX.
 
-  Definition eff (f : N) : list (N * str) := match cut f with None => fr f | Some k => firstn k (fr f) end.
-  Definition tail (f : N) : str := match cut f with None => enc_frame SIG_CHILD_END (dec_of_N (res f)) | Some _ => [] end.
+  (* the record the worker was about to write after its first k records *)
+  Definition next_rec (f : N) (k : nat) : str :=
+    match nth_error (fr f) k with
+    | Some x => enc_frame (fst x) (snd x)
+    | None => enc_frame SIG_CHILD_END (dec_of_N (res f))
+    end.
+  (* the crash point lies strictly before the end of that record (j = 0: between records) *)
+  Hypothesis cut_proper : forall f k j, cut f = Some (k, j) -> (j < length (next_rec f k))%nat.
+
+  Definition eff (f : N) : list (N * str) := match cut f with None => fr f | Some (k, _) => firstn k (fr f) end.
+  Definition tail (f : N) : str :=
+    match cut f with
+    | None => enc_frame SIG_CHILD_END (dec_of_N (res f))
+    | Some (k, j) => firstn j (next_rec f k)
+    end.
   Definition stream (f : N) : str := frames_bytes (eff f) ++ tail f.
 
-  Lemma stream_spec f : stream f = match cut f with None => full_stream (fr f) (res f) | Some k => cut_stream (fr f) k end.
-  Proof. unfold stream, eff, tail, full_stream, cut_stream. destruct (cut f); [rewrite app_nil_r|]; reflexivity. Qed.
+  Lemma stream_spec f :
+    stream f = match cut f with
+               | None => full_stream (fr f) (res f)
+               | Some (k, j) => cut_stream (fr f) k ++ firstn j (next_rec f k)
+               end.
+  Proof. unfold stream, eff, tail, full_stream, cut_stream. destruct (cut f) as [[k j]|]; reflexivity. Qed.
+
+  Lemma res_len_small f : len_of (dec_of_N (res f)) < U32.
+  Proof. pose proof (small_dec (res f) (res_small f)) as S. unfold small in S. lia. Qed.
+
+  Lemma tail_torn f k j : cut f = Some (k, j) ->
+    read_frame (firstn j (next_rec f k)) = FEof \/ read_frame (firstn j (next_rec f k)) = FTorn.
+  Proof.
+    intros Hc. pose proof (cut_proper f k j Hc) as Hj. unfold next_rec in *.
+    destruct (nth_error (fr f) k) as [[t data]|] eqn:En; cbn [fst snd] in *.
+    - pose proof (good f) as G. rewrite forallb_forall in G. specialize (G _ (nth_error_In _ _ En)).
+      unfold good_frame in G. apply andb_true_iff in G. destruct G as [Gl Gt].
+      apply read_frame_prefix; [lia| |exact Hj].
+      apply existsb_exists.
+      repeat (apply orb_true_iff in Gt; destruct Gt as [Gt|Gt]); try (apply andb_true_iff in Gt; destruct Gt as [Gt _]);
+        apply N.eqb_eq in Gt; subst t; eexists; (split; [|apply N.eqb_refl]); unfold pipe_signals; cbn [In]; tauto.
+    - apply read_frame_prefix; [apply res_len_small|reflexivity|exact Hj].
+  Qed.
 
   Lemma good_eff f : forallb good_frame (eff f) = true.
   Proof.
-    unfold eff. destruct (cut f) as [k|]; [|apply good].
+    unfold eff. destruct (cut f) as [[k j0]|]; [|apply good].
     pose proof (good f) as G. rewrite forallb_forall in *. intros x Hx. apply G.
     rewrite <- (firstn_skipn k (fr f)). apply in_or_app. left. exact Hx.
   Qed.
@@ -411,12 +461,10 @@ Section Containment.
           - unfold file_inv. cbn [ph log result]. rewrite upd_same. split; [split; [exact Hlog|exact Hcut]|exact Hint].
           - apply (other_file st _ f g [] Hne (Hf g)); cbn [ph log result];
               [apply upd_other; exact Hne|reflexivity|intros e []|exact Hrs]. }
-        unfold tail in Hs. destruct (cut f) as [k|] eqn:Ec.
-        * rewrite Hs. cbn [read_frame]. apply Hclose; [lia|intros _; lia].
-        * assert (Hsm : len_of (dec_of_N (res f)) < U32).
-          { pose proof (small_dec (res f) (res_small f)) as S. unfold small in S. lia. }
-          rewrite Hs, <- (app_nil_r (enc_frame SIG_CHILD_END (dec_of_N (res f)))).
-          rewrite (read_frame_enc _ _ [] Hsm) by reflexivity.
+        unfold tail in Hs. destruct (cut f) as [[k j0]|] eqn:Ec.
+        * rewrite Hs. destruct (tail_torn f k j0 Ec) as [E|E]; rewrite E; (apply Hclose; [lia|intros _; lia]).
+        * rewrite Hs, <- (app_nil_r (enc_frame SIG_CHILD_END (dec_of_N (res f)))).
+          rewrite (read_frame_enc _ _ [] (res_len_small f)) by reflexivity.
           change (SIG_CHILD_END =? SIG_REPORT_ERROR) with false.
           change (SIG_CHILD_END =? SIG_REPORT_OUT) with false.
           change ((SIG_CHILD_END =? SIG_REPORT_SUPPR) || (SIG_CHILD_END =? SIG_REPORT_SUPPR_INLINE)) with false.
@@ -444,8 +492,8 @@ Section Containment.
       exact (IH _ _ (step_inv _ _ _ Hi Es) H).
   Qed.
 
-  (* every subset of crashing workers, every crash point between records, every schedule *)
-  Theorem crash_contained_at_boundaries es st :
+  (* every subset of crashing workers, every crash point (between records or inside one), every schedule *)
+  Theorem crash_contained es st :
     Defs.exec files jobs stream status Defs.init es = Some st ->
     halted st = None /\
     (done files st = true -> forall f, In f files ->
@@ -461,7 +509,7 @@ Section Containment.
   Qed.
 End Containment.
 
-(* ---------- a worker that dies inside a record ---------- *)
+(* ---------- the former counterexample: a worker that dies inside a record ---------- *)
 Definition w_a : str := serialize m_base.
 Definition rf_files : list N := [0; 1].
 Definition rf_fr (f : N) : list (N * str) := [(SIG_REPORT_ERROR, w_a)].
@@ -471,24 +519,22 @@ Definition rf_stream (f : N) : str :=
   if f =? 0 then torn_stream (rf_fr 0) 1 0 3 else full_stream (rf_fr 1) 1.
 Definition rf_status (f : N) : cstat := if f =? 0 then ExitCode 3 else ExitOk.
 
-Theorem crash_mid_message_refuted :
-  exists es st,
-    exec rf_files 2 rf_stream rf_status init es = Some st
-    /\ halted st = Some 1                                         (* exit(EXIT_FAILURE), not --error-exitcode *)
-    /\ (forall e, step rf_files 2 rf_stream rf_status st e = None) (* nothing more is reported *)
-    /\ findings_of 1 (rf_fr 1) <> []
-    /\ filter (is_finding_of 1) (log st) = []                     (* the other worker's finding is lost *)
-    /\ filter (is_internal_of 0) (log st) = [].                   (* and no internal error names file 0 *)
-Proof.
-  exists [EFork 0; EFork 1; ERead 0]. eexists. split; [vm_compute; reflexivity|].
-  split; [reflexivity|]. split; [intros e; reflexivity|]. split; [discriminate|]. split; reflexivity.
-Qed.
-
-(* the same two workers with worker 0 dying between records instead: contained *)
-Example boundary_case_contained :
-  exists st, exec rf_files 2 (fun f => if f =? 0 then cut_stream (rf_fr 0) 0 else full_stream (rf_fr 1) 1)
-                  rf_status init [EFork 0; EFork 1; ERead 0; ERead 1; ERead 1; EReap 1; EReap 0] = Some st
+(* before fix 532f6fa this run ended in exit(1) after [EFork 0; EFork 1; ERead 0] with worker 1's
+   finding lost; with the repaired handleRead it is contained *)
+Example mid_message_case_contained :
+  exists st, exec rf_files 2 rf_stream rf_status init
+                  [EFork 0; EFork 1; ERead 0; ERead 1; ERead 1; EReap 1; EReap 0] = Some st
              /\ halted st = None /\ done rf_files st = true /\ 0 < result st
              /\ filter (is_finding_of 1) (log st) = [Finding 1 w_a]
              /\ filter (is_internal_of 0) (log st) = [InternalErr 0 (ExitCode 3)].
 Proof. eexists. split; [vm_compute; reflexivity|]. repeat split; reflexivity. Qed.
+
+(* the hypotheses of crash_contained are satisfiable by exactly this scenario *)
+Example mid_message_case_hyps :
+  (forall f, forallb good_frame (rf_fr f) = true) /\
+  (forall f k j, (fun f => if f =? 0 then Some (0%nat, 3%nat) else None) f = Some (k, j) ->
+                 (j < length (next_rec rf_fr (fun _ => 1%N) f k))%nat).
+Proof.
+  split; [intros f; vm_compute; reflexivity|].
+  intros f k j H. destruct (f =? 0); [|discriminate]. injection H as <- <-. vm_compute. lia.
+Qed.
